@@ -4,8 +4,9 @@
    PART A states the property for the code as it is NOW: /repo contains the fix commits
    a455136 (empty text treated like n/a), 37fb060 (re.escape of the reference), a2f08b3
    (empty value cell skipped), 2ad4134 (_remover tests for a comma), a8ad4f5 (one
-   occurrence at a time), fd59dc0 (positional splice) and 220dc27 (_handle_transforms works
-   on a copy).  The model follows it at [fixed = true], [keepcat = false]; this is the mode
+   occurrence at a time), fd59dc0 (positional splice), 220dc27 (_handle_transforms works
+   on a copy), 8227060 (the final join skips blanks-only texts) and d53ebab (replace_ref removes
+   a reference whose column text holds only blanks).  The model follows it at [fixed = true], [keepcat = false]; this is the mode
    the correspondence run compares with the implementation (harness defaults
    VERIF_C06_FIXED=1, VERIF_C06_KEEPCAT=0).
    PART B is the RECORD of the repaired defects: [fixed = false] / [keepcat = true] is the
@@ -16,7 +17,8 @@ From Coq Require Import List NArith Bool Sorted.
 From HV Require Import Base.Res Base.Str Model.Parse Model.RefSplice Model.Assemble
   Model.AssembleOps
   Proofs.ParseProofs Proofs.AssembleProofs Proofs.AssembleTotal Proofs.AssembleOpsProofs
-  Proofs.SpliceLiteralProofs Proofs.ColumnKindProofs.
+  Proofs.SpliceLiteralProofs Proofs.ColumnKindProofs
+  Proofs.BlankProofs.
 Import ListNotations.
 
 (* ============ PART A: the code as it is now (fixed = true, keepcat = false) ============ *)
@@ -130,6 +132,24 @@ Theorem C06_parts_per_kind :
 Proof. exact (transform_cells true). Qed.
 Print Assumptions C06_parts_per_kind.
 
+(* Which texts the final per-row join skips (combine_dataframe since fix commit 8227060:
+   bool(e.strip(" ")) and e != "n/a"): EXACTLY the empty text, texts holding only blanks
+   (U+0020 only) and the text "n/a".  Every other text -- " n/a", "n/a ", "Red ", a tab --
+   is listed as it is.  All texts. *)
+Theorem C06_join_skips_exactly :
+  forall e : str, keep_part e = false <-> (e = ch_na \/ Forall (fun c => c = ch_space) e).
+Proof. exact keep_part_spec. Qed.
+Print Assumptions C06_join_skips_exactly.
+
+(* closed instances, incl. the record of the rule before 8227060 ([keep_part_pre]: a blank
+   text was listed, giving "R,  , B") *)
+Example C06_join_skips_nonvacuous :
+  keep_part_pre [32]%N = true /\ keep_part [32]%N = false /\ keep_part [32; 32]%N = false /\
+  keep_part [] = false /\ keep_part ch_na = false /\
+  keep_part [32; 110; 47; 97]%N = true /\ keep_part [82; 32]%N = true /\ keep_part [9]%N = true /\
+  combine_row [[82]%N; [32]%N; [66]%N] = [82; 44; 32; 66]%N.
+Proof. exact blank_part_before_and_now. Qed.
+
 (* Cells that are n/a or empty contribute no part, whatever the column kind. *)
 Theorem C06_skipped_cell_contributes_nothing :
   forall (f : xform) (x : str), skipped x = true ->
@@ -138,15 +158,23 @@ Theorem C06_skipped_cell_contributes_nothing :
 Proof. exact skipped_cell_contributes_nothing. Qed.
 Print Assumptions C06_skipped_cell_contributes_nothing.
 
-(* na_is_removed, full statement: whenever the referenced column contributes nothing for
-   the row (its text is "n/a" or empty) the reference is taken out by the remover, never
-   substituted literally -- for all texts, reference names (digits-only included: the name
-   is escaped) and values. *)
+(* na_is_removed, FULL statement, for the code as it is (since fix commits a455136 and d53ebab):
+   whenever the referenced column's text for the row is one the join skips -- "n/a", empty or
+   blanks only ([keep_part v = false], see C06_join_skips_exactly) -- the reference is taken out
+   by the remover, never substituted literally.  For all texts, reference names (digits-only
+   included: the name is escaped) and values. *)
 Theorem C06_na_is_removed :
-  forall text ref v : str, skipped v = true ->
+  forall text ref v : str, keep_part v = false ->
   replace_ref true text ref v = Ok (remove_ref_fixed (brace ref) text).
-Proof. exact na_is_removed_fixed. Qed.
+Proof. exact na_is_removed_current. Qed.
 Print Assumptions C06_na_is_removed.
+
+(* the mode of the code as it is: replace_ref IS replace_ref_gen true (Model/RefSplice.v:
+   blank_ref_removed = true; the harness reads the same constant) *)
+Theorem C06_current_blank_mode : replace_ref = replace_ref_gen true.
+Proof. exact current_blank_mode. Qed.
+Print Assumptions C06_current_blank_mode.
+
 
 (* Assembly never raises: for every sidecar, table and reference order. *)
 Theorem C06_assembly_never_raises :
@@ -182,12 +210,12 @@ Theorem C06_deterministic_inputs_unchanged :
 Proof. exact (deterministic_unchanged true). Qed.
 Print Assumptions C06_deterministic_inputs_unchanged.
 
-(* "Spliced in place of the reference", verbatim: a reference whose column text is neither
-   "n/a" nor empty is replaced by plain LITERAL substitution ([str_replace]) -- at an
+(* "Spliced in place of the reference", verbatim: a reference whose column text is not skipped
+   by the join (not "n/a", not empty, not blanks only: [keep_part v = true]) is replaced by plain LITERAL substitution ([str_replace]) -- at an
    occurrence the text is inserted exactly as it is, whatever characters it contains
    (backslashes, \1, \g<0>, $, %, ...): nothing in it is interpreted.  All inputs. *)
 Theorem C06_reference_spliced_verbatim :
-  forall rest ref v : str, skipped v = false ->
+  forall rest ref v : str, keep_part v = true ->
   replace_ref true (brace ref ++ rest) ref v = Ok (v ++ str_replace (brace ref) v rest 0).
 Proof. exact replace_ref_hit. Qed.
 Print Assumptions C06_reference_spliced_verbatim.
@@ -200,9 +228,12 @@ Proof. exact (fun old new rest c s => conj (str_replace_hit old new rest) (str_r
 Print Assumptions C06_replacement_is_literal.
 
 (* "Each value template with '#' replaced by the cell text, skipping cells that are n/a or
-   empty": ONLY the exact texts "n/a" and "" are skipped; every other cell -- substrings and
-   near-misses of n/a such as a, n, /, n/, /a, N/A, na, " n/a" included -- fills every '#'
-   verbatim.  All templates and cells. *)
+   empty": the VALUE HANDLER and the reference dispatch ([skipped]) skip ONLY the exact texts
+   "n/a" and ""; since d53ebab a blanks-only text of a REFERENCED column goes to the remover as
+   well (C06_na_is_removed), the value handler is unchanged.  Every other cell -- substrings and near-misses of n/a such as a, n, /, n/,
+   /a, N/A, na, " n/a", and also a blanks-only cell " " -- fills every '#' verbatim (a
+   template "#" then yields the blank text, which the final join skips: C06_join_skips_exactly;
+   "Label/#" yields "Label/ ").  All templates and cells. *)
 Theorem C06_only_exact_na_is_skipped :
   forall x : str, skipped x = true <-> x = ch_na \/ x = [].
 Proof. exact skipped_exact. Qed.
@@ -360,3 +391,19 @@ Theorem C06_splice_well_delimited_refuted :
   (splice_premise true w_twice = true /\ splice_concl false w_twice = false).
 Proof. exact splice_well_delimited_refuted. Qed.
 Print Assumptions C06_splice_well_delimited_refuted.
+
+(* REPAIRED by d53ebab (defect C06-F8): before it ([replace_ref_gen false]) replace_ref substituted
+   a blanks-only text of a referenced column literally although the join (since 8227060) skips such
+   a text: "{h}, S" with " " gave " , S" (not delimiter-well-formed). *)
+Theorem C06_blank_reference_refuted :
+  exists text ref v r, keep_part v = false /\ replace_ref_gen false true text ref v = Ok r /\
+                       wf_delim text = true /\ wf_delim r = false.
+Proof. exact blank_reference_refuted. Qed.
+Print Assumptions C06_blank_reference_refuted.
+
+(* ... the repair changed nothing for texts that are not blanks only. *)
+Theorem C06_blank_repair_changes_nothing_else :
+  forall text ref v : str, is_blank v = false ->
+  replace_ref_gen true true text ref v = replace_ref_gen false true text ref v.
+Proof. exact replace_ref_gen_agrees. Qed.
+Print Assumptions C06_blank_repair_changes_nothing_else.
